@@ -648,6 +648,7 @@ type loopSpec struct {
 	lets    []*Clause
 	invs    []*Clause
 	cut     bool
+	exits   []*Clause
 	dec     *Clause
 	assigns []*Clause
 }
@@ -674,6 +675,8 @@ func (p *Proc) loopSpecFor(n ast.Node) loopSpec {
 				ls.assumes = append(ls.assumes, cl)
 			case "loop.cut":
 				ls.cut = true
+			case "loop.exits":
+				ls.exits = append(ls.exits, cl)
 			}
 		}
 	}
@@ -895,8 +898,30 @@ func (p *Proc) execFor(st *State, x *ast.ForStmt, label string) flow {
 		}
 		p.loopBack(b, ls, d0, pos)
 	}
+	p.loopExits(exits, ls, pos)
 	out.norm = p.merge(exits)
 	return out
+}
+
+// loopExits proves the loop's `exits` clauses in every state that leaves the loop (the condition
+// turned false, or a break): what must hold whenever the loop is left, and is known afterwards.
+func (p *Proc) loopExits(exits []*State, ls loopSpec, pos token.Pos) {
+	if len(ls.exits) == 0 {
+		return
+	}
+	name := fmt.Sprintf("%sloop%d", p.cur().prefix, ls.ord)
+	for k, ex := range exits {
+		if ex == nil {
+			continue
+		}
+		for i, cl := range ls.exits {
+			ec := p.specEc(ex, pos)
+			ec.where = cl.Where
+			g := p.eval(ec, cl.Expr)
+			p.oblige(ex, "inv.exit", fmt.Sprintf("%s.exits[%d]@%d", name, i+1, k+1), cl.Tags, g.T, cl.Where)
+			ex.assume(g.T)
+		}
+	}
 }
 
 func (p *Proc) execRange(st *State, x *ast.RangeStmt, label string) flow {
